@@ -20,7 +20,7 @@
    zeroMetrics: clears the 8 counters and all sets/maps; prometheus counters are cumulative (never cleared).
 
    Proxy types are numbers: 0 standalone, 1 webext, 2 badge, 3 iptproxy, >= 4 anything else.
-   NAT types: 0 unknown, 1 restricted, 2 unrestricted (the message decoders admit nothing else). *)
+   NAT types: 0 unknown, 1 restricted, 2 unrestricted (the message decoders accept nothing else). *)
 From Coq Require Import List NArith Bool Arith String.
 From Snow Require Import Lib.Wire Model.Round8.
 Import ListNotations.
